@@ -3,6 +3,7 @@ package limiter
 import (
 	"context"
 	"fmt"
+	"math"
 	mathrand "math/rand"
 	"os"
 	"sort"
@@ -711,13 +712,13 @@ func (r *rateLimiter) calculateUpstreamCondition(limitStore _interface.LimitStor
 				if total.MaxRequestsInflight == nil {
 					total.MaxRequestsInflight = &proxyv1alpha1.MaxRequestsInflightFlowControlSchema{}
 				}
-				total.MaxRequestsInflight.Max += item.MaxRequestsInflight.Max
+				total.MaxRequestsInflight.Max = addInt32Saturated(total.MaxRequestsInflight.Max, item.MaxRequestsInflight.Max)
 			case item.TokenBucket != nil:
 				if total.TokenBucket == nil {
 					total.TokenBucket = &proxyv1alpha1.TokenBucketFlowControlSchema{}
 				}
-				total.TokenBucket.QPS += item.TokenBucket.QPS
-				total.TokenBucket.Burst += item.TokenBucket.Burst
+				total.TokenBucket.QPS = addInt32Saturated(total.TokenBucket.QPS, item.TokenBucket.QPS)
+				total.TokenBucket.Burst = addInt32Saturated(total.TokenBucket.Burst, item.TokenBucket.Burst)
 			}
 		}
 
@@ -746,6 +747,20 @@ func (r *rateLimiter) calculateUpstreamCondition(limitStore _interface.LimitStor
 	}
 	upstreamCondition.Status.LimitItemStatuses = newFlowControlStatus
 	return upstreamCondition
+}
+
+// addInt32Saturated adds two int32 without wrapping around. A sum of quotas that does not
+// fit int32 stays at the largest value, so it still compares as "nothing left" against any
+// global limit instead of turning negative and freeing the whole limit again.
+func addInt32Saturated(a, b int32) int32 {
+	sum := int64(a) + int64(b)
+	if sum > math.MaxInt32 {
+		return math.MaxInt32
+	}
+	if sum < math.MinInt32 {
+		return math.MinInt32
+	}
+	return int32(sum)
 }
 
 func updateUpstreamStateCondition(upstreamCondition *proxyv1alpha1.RateLimitCondition, cluster *proxyv1alpha1.UpstreamCluster) *proxyv1alpha1.RateLimitCondition {
